@@ -22,15 +22,18 @@ type Profile struct {
 	NoFillerBias bool
 	RelBias      int  // percent chance to add a relation component to ID-based creations/additions
 	Burst        bool // open bursts of queries up to the limit of 64
+	ForceReset   bool // one Reset is forced in the middle of the case; the first prefix observer listens to OnRemoveRelations
 	ObsPrefix    int  // observers created (and mostly registered) at the start of a case
 }
 
 // Gen draws operations given the model state.
 type Gen struct {
-	P     *Profile
-	It    *Interp
-	qSeq  int
-	burst int
+	P       *Profile
+	It      *Interp
+	qSeq    int
+	N       int // planned number of ops
+	resetAt int
+	burst   int
 }
 
 var defaultCaps = []int{1, 1, 2, 3, 4, 8, 16, 64}
@@ -142,7 +145,21 @@ func (g *Gen) Next(t *rapid.T) *Op {
 	add("read", true)
 	add("dumpLoad", !locked)
 	if g.P.ObsPrefix > 0 && g.It.Step < g.P.ObsPrefix && len(m.Obs) < 8 {
-		return g.genObs(t)
+		op := g.genObs(t)
+		if g.P.ForceReset && len(m.Obs) == 0 {
+			op.OS = &ObsSpec{Inst: -1, Ev: EvRemoveRels}
+			op.Mode = 1
+		}
+		return op
+	}
+	if g.P.ForceReset {
+		if g.resetAt == 0 {
+			g.resetAt = g.P.ObsPrefix + 3 + rapid.IntRange(g.N*3/10, g.N*7/10).Draw(t, "resetAt")
+		}
+		if g.It.Step >= g.resetAt && g.resetAt > 0 && !locked {
+			g.resetAt = 1 << 30
+			return &Op{K: "reset"}
+		}
 	}
 	if g.burst > 0 && g.P.OpenQ && nLive > 0 && m.OpenQ < g.P.MaxOpenQ {
 		g.burst--
